@@ -346,6 +346,12 @@ func genWildOp(t *simrt.Tape, rows, cols int) (string, string) {
 		m := []string{"1", "6", "7", "25", "1000", "1002", "1003", "1006", "1049", "47", "1047", "2004", "69", "5", "3", "12"}[t.Draw(16)]
 		return "\x1b[?" + m + "hl"[t.Draw(2):][:1], "decmode"
 	case 6:
+		if t.Draw(2) == 0 {
+			// SGR with truncated, empty or oversized extended-colour forms
+			forms := []string{"38", "48", "58", "38;2", "38;5", "38;2;1", "38;2;10;20", "1;48;2;0;0", "48;5", "58;2;1;2", "38:2", "38:5", "38:2:1:2", "58:2::1", "4:", "38;5;999",
+				"38;2;999;999;999", "38:2:1:2:3:4:5", "48;2;1;2;3;38", "38;;", ";;38;2", "38:5:", "58:5", "4:9", "38;2;2147483648;1;1", "38;5;9223372036854775807"}
+			return "\x1b[" + forms[t.Draw(len(forms))] + "m", "sgr-truncated"
+		}
 		return "\x1b[" + []string{"4", "20", "2", "12"}[t.Draw(4)] + "hl"[t.Draw(2):][:1], "ansimode"
 	case 7:
 		n := 1 + t.Draw(8)
